@@ -50,11 +50,45 @@ func oracle(c Case) error {
 	return kept.Verify()
 }
 
+// keyBufs: the caller keeps its auth key in a buffer of its own and writes the next key over the previous one (a
+// re-keyed session, the next stored session): the same memory, other content. Last in, first out, so that sequential
+// calls see one buffer again and again; concurrent callers each hold their own while they work.
+var keyBufs struct {
+	mu   sync.Mutex
+	free [][]byte
+}
+
+func takeKeyBuf(key []byte) []byte {
+	keyBufs.mu.Lock()
+	var b []byte
+	if n := len(keyBufs.free); n > 0 {
+		b, keyBufs.free = keyBufs.free[n-1], keyBufs.free[:n-1]
+	} else {
+		b = make([]byte, 256)
+	}
+	keyBufs.mu.Unlock()
+	if len(key) != len(b) {
+		return append([]byte{}, key...)
+	}
+	copy(b, key)
+	return b
+}
+
+func giveKeyBuf(b []byte) {
+	if len(b) != 256 {
+		return
+	}
+	keyBufs.mu.Lock()
+	keyBufs.free = append(keyBufs.free, b)
+	keyBufs.mu.Unlock()
+}
+
 func oracleOne(c Case) error {
 	return hx.Safely(func() error {
 		switch c.Dir {
 		case "c2s":
-			key := append([]byte{}, c.Key...)
+			key := takeKeyBuf(c.Key)
+			defer giveKeyBuf(key)
 			cc := c
 			cc.Key = key
 			em := &messages.Encrypted{Msg: append([]byte{}, c.Body...), MsgID: c.MsgID}
@@ -71,7 +105,7 @@ func oracleOne(c Case) error {
 				return fmt.Errorf("Serialize: %v", err)
 			}
 			if len(pkt) < 24 || !bytes.Equal(pkt[:8], ref.AuthKeyID(c.Key)) {
-				return fmt.Errorf("auth_key_id is not SHA1(auth_key)[12:20]")
+				return fmt.Errorf("auth_key_id is not SHA1(auth_key)[12:20] (the caller keeps the key in one buffer and had another key in it before)")
 			}
 			if (len(pkt)-24)%16 != 0 {
 				return fmt.Errorf("encrypted part has length %d, not a multiple of 16", len(pkt)-24)
@@ -97,10 +131,15 @@ func oracleOne(c Case) error {
 			kept.Keep("a packet returned by Encrypted.Serialize", func() []byte { return pkt })
 		case "s2c":
 			pkt := ref.Seal(c.Key, ref.Envelope{Salt: c.Salt, Session: c.Session, MsgID: c.MsgID, SeqNo: c.SeqNo, Body: c.Body}, 8, c.Pad)
-			m, err := messages.DeserializeEncrypted(append([]byte{}, pkt...), append([]byte{}, c.Key...))
+			key := takeKeyBuf(c.Key)
+			defer giveKeyBuf(key)
+			in := append(make([]byte, 0, len(pkt)+16), pkt...)
+			m, err := messages.DeserializeEncrypted(in, key)
 			if err != nil {
 				return fmt.Errorf("DeserializeEncrypted refuses a packet sealed by a conformant server: %v", err)
 			}
+			// the caller reads the next packet into the same receive buffer
+			hx.Scribble(in)
 			if m.Salt != c.Salt || m.SessionID != c.Session || m.MsgID != c.MsgID || m.SeqNo != c.SeqNo || !bytes.Equal(m.Msg, c.Body) {
 				return fmt.Errorf("opened to salt=%d session=%d msg_id=%d seq_no=%d body[%d], sealed salt=%d session=%d msg_id=%d seq_no=%d body[%d]",
 					m.Salt, m.SessionID, m.MsgID, m.SeqNo, len(m.Msg), c.Salt, c.Session, c.MsgID, c.SeqNo, len(c.Body))
@@ -210,6 +249,13 @@ func TestC03(t *testing.T) {
 		record(c)
 		run.Case(true, 1)
 		run.Case(true, 2)
+		// the case as the run saw it: the caller's key buffer held another key before
+		prev := c
+		prev.Key = append([]byte{}, c.Key...)
+		for i := range prev.Key {
+			prev.Key[i] ^= 0xff
+		}
+		oracle(prev)
 		if err := oracle(c); err != nil {
 			run.Violation(c, err.Error())
 			t.Fatalf("replay fails: %v", err)
